@@ -122,7 +122,13 @@ def u_eq_hash(I):
     gcls = source.module(GROUP).classes['Group']
     dcls = source.module(GROUP).classes['Descriptor']
     n1, n2 = I.fresh('name1', 'str'), I.fresh('name2', 'str')
-    a = Obj(gcls, {'name': n1, 'scheme': None}, 'param')
+    # identity is centre + peripherals (= the canonical name): the scheme object a group was built with plays no part -- the two operands
+    # carry the same scheme object, two different scheme objects, or none
+    sch = [Obj(BuiltinClass('SchemeA'), {}, 'param'), Obj(BuiltinClass('SchemeB'), {}, 'param')]
+    I.world.abstract['SchemeA'] = {}
+    I.world.abstract['SchemeB'] = {}
+    s1, s2 = [(None, None), (sch[0], sch[0]), (sch[0], sch[1]), (sch[0], None)][ctx.choose([True] * 4, 'scheme objects of the operands')]
+    a = Obj(gcls, {'name': n1, 'scheme': s1}, 'param')
     form = ['group', 'descriptor', 'string', 'string-left'][ctx.choose([True] * 4, 'other operand')]
     hashes = {}
 
@@ -131,9 +137,9 @@ def u_eq_hash(I):
         return z3.Function('HashStr', SS, IS)(v)
     I.world.hash_model = hash_model
     if form == 'group':
-        b = Obj(gcls, {'name': n2, 'scheme': None}, 'param')
+        b = Obj(gcls, {'name': n2, 'scheme': s2}, 'param')
     elif form == 'descriptor':
-        b = Obj(dcls, {'name': n2, 'scheme': None}, 'param')
+        b = Obj(dcls, {'name': n2, 'scheme': s2}, 'param')
     else:
         b = n2
     from pyvc.verify import Outcome
@@ -428,7 +434,7 @@ def u_lemma_roundtrip(I):
 def standin_groups(tier, seed):
     import itertools, random
     from pgradd.GroupAdd.Group import Group, Descriptor
-    names = ['C', 'H', 'C[d]', 'C[.]', 'CO', 'Co', 'Pt', 'N[A]', 'C2', 'x y']
+    names = ['C', 'H', 'C[d]', 'C[.]', 'CO', 'Co', 'Pt', 'N[A]', 'C2', 'x y', 'O', 'N', 'CN']     # incl. names whose concatenations collide: C+O / CO, C+N / CN
     centres = ['C', 'C[d]', 'Pt', 'CO']
     maxk = 3 if tier == 'quick' else 4
     viol, n, distinct = [], 0, set()
@@ -461,6 +467,13 @@ def standin_groups(tier, seed):
             for ms in itertools.combinations_with_replacement(names, k):
                 ref = Group(None, csg, list(ms))
                 canon = ref.name
+                # the scheme object a group was built with is not part of its identity
+                other_scheme = Group(object(), csg, list(reversed(ms)))
+                n += 1
+                if not (other_scheme == ref and ref == other_scheme and hash(other_scheme) == hash(ref) and not (other_scheme != ref) and {ref: 1}.get(other_scheme) == 1) and len(viol) < 10:
+                    viol.append({'id': 'scheme-%s-%s' % (csg, '.'.join(ms)), 'input': {'centre': csg, 'peripherals': list(ms)}, 'observed': 'groups built with different scheme objects differ',
+                                 'expected': 'equal, same hash, same dictionary entry',
+                                 'script': "from pgradd.GroupAdd.Group import Group\nprint(Group(object(), %r, %r) == Group(None, %r, %r))   # expected True\n" % (csg, list(ms), csg, list(ms))})
                 distinct.add((csg, ms))
                 perms = set(itertools.permutations(ms)) if k <= 3 else set(rnd.sample(list(itertools.permutations(ms)), 6))
                 for order in perms:
